@@ -297,12 +297,22 @@ def run_case(ctx, seed, k=0):
         # directives left out of an explicit directive list.  The generating model no longer describes these, so only the
         # laws that need no model are judged (options, lookups, client schema round trip).
         import graphql as G
-        variant = rng.choice(['roots-only', 'explicit-unused-builtin', 'partial-directives'])
+        variant = rng.choice(['roots-only', 'explicit-unused-builtin', 'partial-directives', 'own-specified-directive', 'own-specified-directive'])
         kw = S.to_kwargs()
         if variant == 'roots-only':
             kw['types'] = None
         elif variant == 'explicit-unused-builtin':
             kw['types'] = [rng.choice([G.GraphQLFloat, G.GraphQLID, G.GraphQLInt])] + list(kw['types'] or [])
+        elif variant == 'own-specified-directive':
+            # a directive of the schema's own under the name of a specified one (legacy @deprecated, a richer @skip, ...)
+            nm = rng.choice(['deprecated', 'skip', 'include', 'specifiedBy', 'oneOf'])
+            own = G.GraphQLDirective(
+                nm, rng.sample([G.DirectiveLocation.FIELD_DEFINITION, G.DirectiveLocation.ENUM_VALUE, G.DirectiveLocation.FIELD,
+                                G.DirectiveLocation.QUERY, G.DirectiveLocation.SCALAR], rng.randint(1, 3)),
+                args={rng.choice(['reason', 'if', 'extra']): G.GraphQLArgument(rng.choice([G.GraphQLString, G.GraphQLInt, G.GraphQLNonNull(G.GraphQLBoolean)]),
+                                                                                  description=rng.choice([None, 'own argument']))},
+                is_repeatable=rng.random() < 0.5, description=rng.choice([None, 'own definition']))
+            kw['directives'] = [own if d.name == nm else d for d in kw['directives']]
         else:
             kw['directives'] = [d for d in kw['directives'] if d.name not in ('skip', 'specifiedBy', 'oneOf')]
         try:
